@@ -63,7 +63,8 @@ Theorem insert_append G heads h b ins :
   let '(G', heads') := insert t lbl G heads h b in
   chain_inv t G' /\ cum_ok t G' ((h, b) :: ins) /\
   (exists e, eget h G' = Some e) /\
-  (forall p, In p ((h, b) :: ins) -> exists e, eget (fst p) G' = Some e).
+  (forall p, In p ((h, b) :: ins) -> exists e, eget (fst p) G' = Some e) /\
+  (forall y ey, eget y G = Some ey -> exists e2, eget y G' = Some e2).
 Proof.
   intros CI CO BASE EH FC NB IN. unfold insert. rewrite FC. unfold append_node.
   assert (HNZ : h <> 0%nat) by (intro E; subst h; destruct BASE; congruence).
@@ -120,9 +121,11 @@ Proof.
   assert (KEYS : forall y ey, eget y G1 = Some ey -> exists e2, eget y (propagate (S (h + length G1)) G1 h b) = Some e2).
   { intros y ey Y. rewrite (propagate_spec t _ G1 h b CI1 L EX y), Y. eauto. }
   split; [destruct EX as [e E]; eapply KEYS; eauto|].
-  intros p [<-|I]; cbn [fst].
-  - destruct EX as [e E]. eapply KEYS; eauto.
-  - destruct (IN p I) as [ep EP]. destruct (KEEP _ _ EP) as [e1 E1]. eapply KEYS; eauto.
+  split.
+  - intros p [<-|I]; cbn [fst].
+    + destruct EX as [e E]. eapply KEYS; eauto.
+    + destruct (IN p I) as [ep EP]. destruct (KEEP _ _ EP) as [e1 E1]. eapply KEYS; eauto.
+  - intros y ey Y. destruct (KEEP _ _ Y) as [e1 E1]. eapply KEYS; eauto.
 Qed.
 
 End Append.
